@@ -1300,8 +1300,10 @@ func (req *Request) Reset() {
 	if bodyPoolSizeLimit := int(atomic.LoadInt64(&requestBodyPoolSizeLimit)); bodyPoolSizeLimit >= 0 && req.body != nil {
 		req.ReleaseBody(bodyPoolSizeLimit)
 	}
-	req.Header.Reset()
+	// Release the body before the header: an unread request body stream
+	// consults the header to tell how much of the body is left.
 	req.resetSkipHeader()
+	req.Header.Reset()
 	req.timeout = 0
 	req.UseHostHeader = false
 	req.DisableRedirectPathNormalizing = false
